@@ -441,3 +441,35 @@ func HarnessLimitChangeFile() {
 	_, newest := c.entriesMetadata[vKeysN(3)]
 	vAssert(newest, "c13.evict.kept-a-higher-priority-entry")
 }
+
+// HarnessIntervalChangesBusyJanitor: the janitor is busy (not scheduled) while TWO interval
+// changes arrive, the second of any value - also one that verify() refuses (<= 0) and that, by
+// the known C18 finding, has been delivered all the same.  When the janitor loop gets to run
+// it neither dies nor ends up anywhere but at the last workable value.
+func HarnessIntervalChangesBusyJanitor() {
+	resetMetrics()
+	vSetSysMem(1 << 40)
+	cfg := newCfg(1 << 30)
+	c := NewMemoryCache[vmeta](cfg, 100, 1<<30, time.Hour, 2, context.Background())
+	vRunPendingAt(0) // the janitor loop starts and waits
+	vAssert(vParkedCount() == 1, "c13.janitor-loop-not-waiting")
+	d2 := time.Duration(symInt64())
+	cfg.Cache.CleanupInterval.Stage(duration.Duration(2 * time.Hour))
+	cfg.Cache.CleanupInterval.Stage(duration.Duration(d2))
+	// both listeners run before the loop does: the first hands over, the second has to wait
+	vRunPendingAt(0)
+	vRunPendingAt(0)
+	died := vPanics(func() { vRunPending() })
+	vAssert(!died, "c18.refused-interval-reaches-the-janitor-and-kills-it")
+	if died {
+		return
+	}
+	vAssert(vParkedCount() == 1, "c13.janitor-loop-died")
+	if d2 > 0 {
+		vReach("second-positive")
+		vAssert(c.janitor.interval == d2 && vTickerInterval() == d2, "c13.interval-change-not-followed")
+	} else {
+		vReach("second-refused")
+		vAssert(c.janitor.interval == 2*time.Hour && vTickerInterval() == 2*time.Hour, "c13.interval-change-not-followed")
+	}
+}
